@@ -238,3 +238,14 @@ M("C12-nztopk-two", "C12", "R12.1", (APM, "        return [ctx.select(flag, seq[
 M("C12-errbranch-index", "C12", "R12.1", (APM, "        f_j, eps_ip1 = two_sum(ctx, eps_i, e_lst[i + 1], fix_overflow=fix_overflow, assume_fma=fast)", "        f_j, eps_ip1 = two_sum(ctx, eps_i, e_lst[i], fix_overflow=fix_overflow, assume_fma=fast)"))
 M("C12-seed-maxsize", "C12", "R12.2", (APM, "max_size = {numpy.float16: 4, numpy.float32: 12, numpy.float64: 40}[dtype]", "max_size = {numpy.float16: 3, numpy.float32: 11, numpy.float64: 39}[dtype]"))
 N("C12-neutral-ne-to-not-eq", "C12", (APM, "                p = ctx.ne(eps_ip1, zero)", "                p = ctx.logical_not(ctx.eq(eps_ip1, zero))"))
+
+# ----------------------------------------------------------------------------- C14
+M("C14-asym-absdiff", "C14", "R14.1", ("utils.py", "                result = ix - iy if ix >= iy else iy - ix", "                result = ix - iy if ix >= iy else ix - iy"))
+M("C14-asym-flush", "C14", "R14.1", ("utils.py", "                iy = iy - i if iy > i else (0 if 2 * iy <= i else 1)", "                iy = iy - i if iy > i else (0 if 2 * iy < i else 1)"))
+M("C14-asym-sign", "C14", "R14.1", ("utils.py", "        sy = -1 if y < 0 else (1 if y > 0 else 0)\n        x, y = abs(x), abs(y)\n        ix, iy = int(x.view(uint)), int(y.view(uint))", "        sy = -1 if y <= 0 else 1\n        x, y = abs(x), abs(y)\n        ix, iy = int(x.view(uint)), int(y.view(uint))"))
+M("C14-complex-pairing", "C14", "R14.2", ("utils.py", "            diff_ulp(x.imag, y.imag, flush_subnormals=flush_subnormals, equal_nan=equal_nan),\n        )", "            diff_ulp(x.imag, y.real, flush_subnormals=flush_subnormals, equal_nan=equal_nan),\n        )"))
+M("C14-option-dropped", "C14", "R14.3", ("utils.py", "            u += diff_ulp(x_, y_, flush_subnormals=flush_subnormals, equal_nan=equal_nan)", "            u += diff_ulp(x_, y_, equal_nan=equal_nan)"))
+M("C14-view-before-abs", "C14", "R14.4", ("utils.py", "        x, y = abs(x), abs(y)\n        ix, iy = int(x.view(uint)), int(y.view(uint))\n        if numpy.isfinite(x) and numpy.isfinite(y):\n            flush_subnormals = flush_subnormals if", "        ix, iy = int(x.view(uint)), int(y.view(uint))\n        x, y = abs(x), abs(y)\n        if numpy.isfinite(x) and numpy.isfinite(y):\n            flush_subnormals = flush_subnormals if"))
+M("C14-ulp-machep", "C14", "R14.5", ("utils.py", "    return numpy.ldexp(dtype(1), numpy.frexp(x)[1] + numpy.finfo(dtype).negep)", "    return numpy.ldexp(dtype(1), numpy.frexp(x)[1] + numpy.finfo(dtype).machep)"))
+N("C14-neutral-absdiff-order", "C14", ("utils.py", "                result = ix - iy if ix >= iy else iy - ix", "                result = iy - ix if iy >= ix else ix - iy"))
+N("C14-neutral-sum-order", "C14", ("utils.py", "                result = ix + iy\n", "                result = iy + ix\n"))
